@@ -227,12 +227,14 @@ def _run_shard(args):
     return idx, r.returncode, r.stdout, r.stderr
 
 
-def eval_terms(pid, header, terms, shard=300, jobs=16, timeout=900, tag="", digest=False):
+def eval_terms(pid, header, terms, shard=300, jobs=None, timeout=900, tag="", digest=False):
     """Evaluate Gallina terms of type tok with vm_compute.
     digest=False: returns the parsed values; digest=True: returns the 63-bit
     digests (lib/Tok.v hash) as ints.  Failed shards give ('ERR', message) entries."""
     if not terms:
         return []
+    if jobs is None:  # parallel coqc shards; VERIF_JOBS lowers the memory peak (each coqc holds 0.3-0.5 GB)
+        jobs = max(1, int(os.environ.get("VERIF_JOBS", "16")))
     wd = os.path.join(WORK, "%s-%d%s" % (pid, os.getpid(), tag))
     os.makedirs(wd, exist_ok=True)
     shards = []
